@@ -90,11 +90,22 @@ def translator_validation(rep, rp, seed, n_mut):
         docs.append(mutate(rng, rng.choice(base)))
     g = xmlgram.grammar()
     n = 0
+    # ATTLIST defaults that refer to entities: declared before / after the ATTLIST, undeclared, predefined
+    docs += ["<!DOCTYPE r [<!ENTITY e 'v'><!ATTLIST r a CDATA '&e;'>]><r/>", "<!DOCTYPE r [<!ATTLIST r a CDATA '&e;'><!ENTITY e 'v'>]><r/>",
+             "<!DOCTYPE r [<!ATTLIST r a CDATA 'x&u;'>]><r/>", "<!DOCTYPE r [<!ATTLIST r a CDATA #FIXED '&lt;&#65;'>]><r/>",
+             "<!DOCTYPE r [<!ENTITY e 'v'>]><r a='&e;'>&e;</r>", "<!DOCTYPE r [<!ENTITY e 'v'>]><r>&f;</r>"]
     for d in docs:
         if len(d) > 140:
             continue
         try:
-            impl = xmlgram.Impl(sym.Input.concrete(d), g)
+            import re
+            ents = [(m.start(), m.group(1)) for m in re.finditer(r"<!ENTITY\s+([^\s%]+)\s", d)]
+            att = d.find("<!ATTLIST")
+            if d.count("<!ATTLIST") > 1 and ents:
+                continue
+            declared = [n for _, n in ents]
+            before = [n for p, n in ents if att < 0 or p < att]
+            impl = xmlgram.Impl(sym.Input.concrete(d), g, declared=declared, declared_before_attlist=before)
             pred_g = impl.grammar_accepts()
             pred = impl.accepts()
         except RecursionError:
@@ -219,6 +230,7 @@ def templates(tier):
     h = 3 if tier == "quick" else 5
     T.append(("dtd-entity-ref", ["<!DOCTYPE r [<!ENTITY e \"", h, "\">]><r a='&e;'>&", 2, ";</r>"], ["e"]))
     T.append(("dtd-attlist", ["<!DOCTYPE r [<!ATTLIST r a ", h + 2, " ", 2, ">]><r/>"], []))
+    T.append(("dtd-attlist-default", ["<!DOCTYPE r [<!ENTITY e \"v\"><!ATTLIST r a CDATA \"", 4, "\">]><r/>"], ["e"]))
     T.append(("dtd-notation", ["<!DOCTYPE r [<!NOTATION n ", h + 2, ">]><r/>"], []))
     T.append(("dtd-element", ["<!DOCTYPE r [<!ELEMENT r ", h + 2, ">]><r/>"], []))
     T.append(("xmldecl", ["<?xml version=", 5, " ", h + 3, "?><r/>"], None))
@@ -344,6 +356,12 @@ def main(prop):
                                                           "expect": "accepted with empty rest", "detail": bad, "property": "C01"}, "; ".join(bad))
         except (nomsem.Unsupported, KeyError, IndexError) as e:
             rep.inconclusive.append("capture obligations: %s" % e)
+        # which declaration an entity reference denotes (first declaration binds; predefined entities)
+        try:
+            import c01ent
+            c01ent.obligations(rep, rp, args.tier, args.jobs)
+        except Exception as e:  # noqa
+            rep.inconclusive.append("entity binding: %s: %s" % (type(e).__name__, e))
     jobs = [("free", L, prop, known, timeout_s, args.seed) for L in range(0, N + 1)]
     for name, spec in templates(args.tier):
         jobs.append(("tpl:" + name, spec, prop, known, timeout_s, args.seed))
@@ -420,6 +438,9 @@ def main(prop):
 
 def replay_case(args, rep):
     case = json.load(open(args.replay))
+    if case.get("op") == "attr_value":
+        import c01ent
+        return common.replay_generic(args, c01ent.judge)
     rp = replay.Replay()
     rr = rp.run({"op": case["op"], "input": case["input"]})
     w = case["input"]
